@@ -171,6 +171,74 @@ theorem parseSpec_intToStr (bits : Nat) (signed : Bool) (v : Int) :
     simp only [intToStr, parseIntSpec, if_true, hne, digitsVal_natToStr, hval]
     cases signed <;> simp [hneg]
 
+theorem digitsVal_some_digits : ∀ {s : Str} {acc m : Nat}, digitsVal s acc = some m → ∀ c ∈ s, isDigit c = true
+  | [], _, _, _ => by simp
+  | c :: cs, acc, m, h => by
+    simp only [digitsVal] at h
+    split at h
+    · rename_i hc
+      intro x hx
+      simp only [List.mem_cons] at hx
+      rcases hx with hx | hx
+      · subst hx; exact hc
+      · exact digitsVal_some_digits h x hx
+    · exact absurd h (by simp)
+
+/-- every string of the strict lexical form is accepted by today's `parseInt<T>`, with the same value -/
+theorem parseIntCode_of_spec {bits : Nat} {signed : Bool} {s : Str} {v : Int}
+    (hb : bits = 8 ∨ bits = 16 ∨ bits = 32 ∨ bits = 64) (h : parseIntSpec bits signed s = some v) :
+    parseIntCode bits signed s = some v := by
+  cases s with
+  | nil => simp [parseIntSpec] at h
+  | cons c cs =>
+    simp only [parseIntSpec] at h
+    split at h
+    · rename_i hc
+      subst hc
+      split at h
+      · rename_i hsg
+        simp only [Bool.and_eq_true, Bool.not_eq_true', List.isEmpty_eq_false_iff] at hsg
+        obtain ⟨hs, hne⟩ := hsg
+        subst hs
+        cases hdv : digitsVal cs 0 with
+        | none => simp [hdv] at h
+        | some m =>
+          simp only [hdv] at h
+          split at h
+          · rename_i hr
+            simp only [Option.some.injEq] at h
+            subst h
+            have hd := digitsVal_some_digits hdv
+            have hns : ∀ x ∈ ('-' :: cs), isSpace x = false := by
+              intro x hx
+              simp only [List.mem_cons] at hx
+              rcases hx with hx | hx
+              · subst hx; decide
+              · exact isDigit_not_space (hd x hx)
+            have hm := inRange_mono hb hr
+            have hce : cs.isEmpty = false := by cases cs <;> simp_all
+            unfold parseIntCode
+            rw [trim_of_no_space hns]
+            simp only [signMag, show isMinus '-' = true by decide, if_true, hce, Bool.false_eq_true, if_false, hdv,
+              Option.map_some, Bool.not_true, Bool.false_and, if_true, hm.1, hm.2, hr]
+          · exact absurd h (by simp)
+      · exact absurd h (by simp)
+    · rename_i hc
+      cases hdv : digitsVal (c :: cs) 0 with
+      | none => simp [hdv] at h
+      | some m =>
+        simp only [hdv] at h
+        split at h
+        · rename_i hr
+          simp only [Option.some.injEq] at h
+          subst h
+          have hd := digitsVal_some_digits hdv
+          have hm := inRange_mono hb hr
+          unfold parseIntCode
+          rw [trim_of_no_space (fun x hx => isDigit_not_space (hd x hx)), signMag_digits (by simp) hd, hdv]
+          simp only [Option.map_some, Bool.and_false, Bool.false_eq_true, if_false, hm.1, hm.2, hr, if_true]
+        · exact absurd h (by simp)
+
 /-! ### Base64 -/
 
 theorem b64val_b64char : ∀ n, n < 64 → b64val (b64char n) = some n := by decide
@@ -281,6 +349,71 @@ theorem b64spec_encode (bs : Bytes) : b64decodeSpec (b64encode bs) = some bs := 
     · rename_i h1 h2 h3 h4 h5
       exact (h5 _ _ _ _ _ rfl).elim
 
+theorem b64val_lt {c : Char} {v : Nat} (h : b64val c = some v) : v < 64 := by
+  unfold b64val at h
+  split at h
+  · rename_i hc; simp only [Bool.and_eq_true, decide_eq_true_eq] at hc; simp only [Option.some.injEq] at h; omega
+  · split at h
+    · rename_i hc; simp only [Bool.and_eq_true, decide_eq_true_eq] at hc; simp only [Option.some.injEq] at h; omega
+    · split at h
+      · rename_i hc; simp only [Bool.and_eq_true, decide_eq_true_eq] at hc; simp only [Option.some.injEq] at h; omega
+      · split at h
+        · simp only [Option.some.injEq] at h; omega
+        · split at h
+          · simp only [Option.some.injEq] at h; omega
+          · exact absurd h (by simp)
+
+theorem b64go_val {c : Char} {v : Nat} (h : b64val c = some v) (cs : Str) (buf nbits : Nat) :
+    b64go (c :: cs) buf nbits =
+      if nbits + 6 ≥ 8 then
+        UInt8.ofNat ((buf * 64 + v) / 2 ^ (nbits + 6 - 8)) ::
+          b64go cs ((buf * 64 + v) % 2 ^ (nbits + 6 - 8)) (nbits + 6 - 8)
+      else b64go cs (buf * 64 + v) (nbits + 6) := by
+  simp only [b64go, h]
+
+/-- whatever a strict RFC 4648 decoder accepts, the lenient decoder of the library decodes to the same bytes -/
+theorem b64go_of_spec {s : Str} {bs : Bytes} (h : b64decodeSpec s = some bs) : b64go s 0 0 = bs := by
+  fun_induction b64decodeSpec s generalizing bs with
+  | case1 => simp only [Option.some.injEq] at h; subst h; rfl
+  | case2 c1 c2 v1 v2 h2 h1 hz =>
+    simp only [Option.some.injEq] at h; subst h
+    have := b64val_lt h1
+    have := b64val_lt h2
+    rw [b64go_val h1, if_neg (by omega), b64go_val h2, if_pos (by omega), b64go_pad, b64go_pad]
+    simp only [b64go]
+    congr 2; simp; omega
+  | case3 => exact absurd h (by simp)
+  | case4 => exact absurd h (by simp)
+  | case5 c1 c2 c3 hne v1 v2 v3 h3 h2 h1 hz =>
+    simp only [Option.some.injEq] at h; subst h
+    have := b64val_lt h1
+    have := b64val_lt h2
+    have := b64val_lt h3
+    rw [b64go_val h1, if_neg (by omega), b64go_val h2, if_pos (by omega), b64go_val h3, if_pos (by omega), b64go_pad]
+    simp only [b64go]
+    congr 1
+    · congr 1; simp; omega
+    · congr 2; simp; omega
+  | case6 => exact absurd h (by simp)
+  | case7 => exact absurd h (by simp)
+  | case8 c1 c2 c3 c4 rest hn1 hn2 v1 v2 v3 v4 tl htl h4 h3 h2 h1 ih =>
+    simp only [Option.some.injEq] at h; subst h
+    have := b64val_lt h1
+    have := b64val_lt h2
+    have := b64val_lt h3
+    have := b64val_lt h4
+    rw [b64go_val h1, if_neg (by omega), b64go_val h2, if_pos (by omega), b64go_val h3, if_pos (by omega),
+      b64go_val h4, if_pos (by omega)]
+    simp only [Nat.zero_mul, Nat.zero_add, Nat.pow_zero, Nat.mod_one, Nat.div_one,
+      show 6 + 6 - 8 = 4 by rfl, show 4 + 6 - 8 = 2 by rfl, show 2 + 6 - 8 = 0 by rfl]
+    rw [ih htl]
+    congr 1
+    · congr 1; omega
+    · congr 1
+      · congr 1; omega
+      · congr 2; omega
+  | case9 => exact absurd h (by simp)
+  | case10 => exact absurd h (by simp)
 /-! ### date-times -/
 
 theorem msRound_three_a : ∀ n, n < 250 → msRound 3 n = n := by decide +kernel
@@ -492,6 +625,97 @@ theorem dtParseCode_own {Y M D h mi sc ms : Nat} {body : Str} (hY1 : 1 ≤ Y) (h
       show Y / 10 % 10 < 10 by omega, show Y % 10 < 10 by omega, show M / 10 < 10 by omega,
       show M % 10 < 10 by omega, show D / 10 < 10 by omega, show D % 10 < 10 by omega]
 
+/-! ### the strict XEP-0082 profile is accepted -/
+
+theorem digitVal_lt {c : Char} (h : isDigit c = true) : digitVal c < 10 := by
+  simp only [isDigit, Bool.and_eq_true, decide_eq_true_eq] at h
+  unfold digitVal; omega
+
+theorem digitChar_digitVal {c : Char} (h : isDigit c = true) : digitChar (digitVal c) = c := by
+  simp only [isDigit, Bool.and_eq_true, decide_eq_true_eq] at h
+  unfold digitChar digitVal
+  rw [show 48 + (c.toNat - 48) = c.toNat by omega]
+  exact Char.ofNat_toNat c
+
+theorem pad2_of_digits {a b : Char} (ha : isDigit a = true) (hb : isDigit b = true) :
+    pad2 (digitVal a * 10 + digitVal b) = [a, b] := by
+  have := digitVal_lt ha
+  have := digitVal_lt hb
+  unfold pad2
+  rw [show (digitVal a * 10 + digitVal b) / 10 = digitVal a by omega,
+    show (digitVal a * 10 + digitVal b) % 10 = digitVal b by omega, digitChar_digitVal ha, digitChar_digitVal hb]
+
+theorem pad3_of_digits {a b c : Char} (ha : isDigit a = true) (hb : isDigit b = true) (hc : isDigit c = true) :
+    pad3 (digitVal a * 100 + digitVal b * 10 + digitVal c) = [a, b, c] := by
+  have := digitVal_lt ha
+  have := digitVal_lt hb
+  have := digitVal_lt hc
+  unfold pad3
+  rw [show (digitVal a * 100 + digitVal b * 10 + digitVal c) / 100 = digitVal a by omega,
+    show (digitVal a * 100 + digitVal b * 10 + digitVal c) / 10 % 10 = digitVal b by omega,
+    show (digitVal a * 100 + digitVal b * 10 + digitVal c) % 10 = digitVal c by omega,
+    digitChar_digitVal ha, digitChar_digitVal hb, digitChar_digitVal hc]
+
+theorem pad4_of_digits {a b c e : Char} (ha : isDigit a = true) (hb : isDigit b = true) (hc : isDigit c = true)
+    (he : isDigit e = true) :
+    pad4 (digitVal a * 1000 + digitVal b * 100 + digitVal c * 10 + digitVal e) = [a, b, c, e] := by
+  have := digitVal_lt ha
+  have := digitVal_lt hb
+  have := digitVal_lt hc
+  have := digitVal_lt he
+  unfold pad4
+  rw [show (digitVal a * 1000 + digitVal b * 100 + digitVal c * 10 + digitVal e) / 1000 = digitVal a by omega,
+    show (digitVal a * 1000 + digitVal b * 100 + digitVal c * 10 + digitVal e) / 100 % 10 = digitVal b by omega,
+    show (digitVal a * 1000 + digitVal b * 100 + digitVal c * 10 + digitVal e) / 10 % 10 = digitVal c by omega,
+    show (digitVal a * 1000 + digitVal b * 100 + digitVal c * 10 + digitVal e) % 10 = digitVal e by omega,
+    digitChar_digitVal ha, digitChar_digitVal hb, digitChar_digitVal hc, digitChar_digitVal he]
+
+theorem dtParseCode_of_spec {s : Str} {d : Dt} (h : dtParseSpec s = some d) : dtParseCode s = some d := by
+  unfold dtParseSpec at h
+  split at h
+  · split at h
+    · rename_i _ y1 y2 y3 y4 m1 m2 d1 d2 h1 h2 n1 n2 s1 s2 rest hall
+      simp only [List.all_cons, List.all_nil, Bool.and_true, Bool.and_eq_true] at hall
+      obtain ⟨g1, g2, g3, g4, g5, g6, g7, g8, g9, g10, g11, g12, g13, g14⟩ := hall
+      simp only [] at h
+      split at h
+      · exact absurd h (by simp)
+      · rename_i ms hms
+        split at h
+        · rename_i hv
+          simp only [Option.some.injEq] at h
+          subst h
+          obtain ⟨hy1, hy2, hm1, hm2, hd1, hd2, hh, hmi, hs, hmsl⟩ := hv
+          simp only at hy1 hy2 hm1 hm2 hd1 hd2 hh hmi hs hmsl
+          have hvd : validDate ((digitVal y1 * 1000 + digitVal y2 * 100 + digitVal y3 * 10 + digitVal y4 : Nat) : Int)
+              (digitVal m1 * 10 + digitVal m2) (digitVal d1 * 10 + digitVal d2) :=
+            ⟨by omega, hm1, hm2, hd1, hd2⟩
+          have key := fun body hb => dtParseCode_own (Y := digitVal y1 * 1000 + digitVal y2 * 100 + digitVal y3 * 10 + digitVal y4)
+            (M := digitVal m1 * 10 + digitVal m2) (D := digitVal d1 * 10 + digitVal d2)
+            (h := digitVal h1 * 10 + digitVal h2) (mi := digitVal n1 * 10 + digitVal n2)
+            (sc := digitVal s1 * 10 + digitVal s2) (ms := ms) (body := body) (by omega) (by omega) hvd hh hmi hs hmsl hb
+          split at hms
+          · simp only [Option.some.injEq] at hms
+            subst hms
+            have e := key _ (Or.inl ⟨rfl, rfl⟩)
+            rw [pad4_of_digits g1 g2 g3 g4, pad2_of_digits g5 g6, pad2_of_digits g7 g8, pad2_of_digits g9 g10,
+              pad2_of_digits g11 g12, pad2_of_digits g13 g14] at e
+            simpa using e
+          · rename_i f1 f2 f3
+            split at hms
+            · rename_i hf
+              simp only [Bool.and_eq_true] at hf
+              simp only [Option.some.injEq] at hms
+              subst hms
+              have e := key _ (Or.inr ⟨rfl, hmsl⟩)
+              rw [pad4_of_digits g1 g2 g3 g4, pad2_of_digits g5 g6, pad2_of_digits g7 g8, pad2_of_digits g9 g10,
+                pad2_of_digits g11 g12, pad2_of_digits g13 g14, pad3_of_digits hf.1.1 hf.1.2 hf.2] at e
+              simpa using e
+            · exact absurd hms (by simp)
+          · exact absurd hms (by simp)
+        · exact absurd h (by simp)
+    · exact absurd h (by simp)
+  · exact absurd h (by simp)
 /-! ### enumerations, time zone offsets -/
 
 theorem enumFromString_getElem {names : List Str} (hn : names.Nodup) {i : Nat} (hi : i < names.length) :
